@@ -26,6 +26,7 @@ carry the hypothesis `Fact (Nat.Prime r)` (primality of the BLS12-381 group orde
 -/
 import CharonV.Proofs.Tbls
 import CharonV.Proofs.TblsFr
+import CharonV.Proofs.FrPrime
 
 namespace CharonV.Tbls
 
@@ -334,5 +335,19 @@ example : TblsExec.thresholdSplitInsecure 3 3 2 [2] = .ok [(1, 5), (2, 7), (3, 9
 example : Fr.lagrangeAt0 [(1, 5), (3, 9)] = 3 := by decide +kernel
 
 end Examples
+
+end CharonV.Tbls
+
+/-! ### Unconditional form: `Fr.r` is proved prime (`Proofs/FrPrime.lean`, Lucas certificate) -/
+
+namespace CharonV.Tbls
+
+/-- **Executable recovery is correct, no hypothesis on `r`**: `exec_recover_secret` with the
+primality of the BLS12-381 scalar-field order discharged by `Fr.r_prime` (kernel-checked Lucas /
+Pratt certificate, witness 7). -/
+theorem exec_recover_secret_unconditional (c : ℕ) (cs : List ℕ) (ids : List ℕ)
+    (hnd : ids.Nodup) (hlt : ∀ i ∈ ids, i < Fr.r) (hlen : (c :: cs).length ≤ ids.length) :
+    Fr.lagrangeAt0 (ids.map fun i => (i, Fr.evalPoly (c :: cs) i)) = c % Fr.r :=
+  @exec_recover_secret ⟨Fr.r_prime⟩ c cs ids hnd hlt hlen
 
 end CharonV.Tbls
